@@ -35,9 +35,10 @@ type Proxy struct {
 }
 
 type command struct {
-	id  string
-	rpc *goatorepo.Rpc
-	err error
+	id     string
+	rpc    *goatorepo.Rpc
+	err    error
+	client *proxyClient // the connection reporting err
 }
 
 type proxyClient struct {
@@ -112,8 +113,12 @@ func (p *Proxy) serveClients(ctx context.Context) {
 				p.forwardRpc(cmd.id, cmd.rpc)
 			} else if cmd.err != nil {
 				p.mutex.Lock()
-				delete(p.clients, cmd.id)
-				vEmit("proxy.remove", p, 0, len(p.clients), cmd.id)
+				// Only forget the connection that failed: a newer connection may
+				// have been attached under the same name in the meantime.
+				if p.clients[cmd.id] == cmd.client {
+					delete(p.clients, cmd.id)
+					vEmit("proxy.remove", p, 0, len(p.clients), cmd.id)
+				}
 				p.mutex.Unlock()
 				if p.clientDisconnect != nil {
 					p.clientDisconnect(cmd.id, cmd.err)
@@ -189,7 +194,7 @@ func (p *Proxy) forwardRpc(source string, rpc *goatorepo.Rpc) {
 // bare send would leave this goroutine behind for ever.
 func (c *proxyClient) report(ctx context.Context, err error) {
 	select {
-	case c.toServer <- command{id: c.id, err: err}:
+	case c.toServer <- command{id: c.id, err: err, client: c}:
 	case <-ctx.Done():
 	}
 }
